@@ -3,8 +3,10 @@
 Copies a confirmed sub-agent mutant from /tmp/mut/<ID>/.mutants into /verif/seeded/<ID>-m<k>/ with meta.json."""
 import json, os, shutil, sys
 pid, k, caught, missed, note = sys.argv[1], sys.argv[2], sys.argv[3], sys.argv[4], sys.argv[5]
-src = f"/tmp/mut/{pid}/.mutants"
-dst = f"/verif/seeded/{pid}-m{k}"
+base = os.environ.get("MUT_BASE", "/tmp/mut")
+tag = os.environ.get("MUT_TAG", "m")
+src = f"{base}/{pid}/.mutants"
+dst = f"/verif/seeded/{pid}-{tag}{k}"
 os.makedirs(dst, exist_ok=True)
 shutil.copy(f"{src}/m{k}.diff", f"{dst}/patch.diff")
 shutil.copy(f"{src}/m{k}_demo.rs", f"{dst}/demo.rs")
@@ -13,7 +15,7 @@ if desc:
     open(f"{dst}/description.md", "w").write(desc)
 meta = {
     "breaks_property": pid,
-    "origin": "independent sub-agent given only the property text and a scratch worktree of /repo HEAD",
+    "origin": "independent sub-agent given only the property text and a scratch worktree of /repo HEAD" + (" (round 2: asked for changes that depend on history, far boundaries, numeric corners, build profile or two cooperating sites)" if tag != "m" else ""),
     "needs_to_manifest": (desc.split("\n\n")[0][:600] if desc else ""),
     "confirmed": {
         "how": "confirm_mutant.sh in the scratch worktree: cargo test --offline --lib with the patch; demo as tests/m_demo.rs with and without the patch",
